@@ -439,6 +439,74 @@ abbrev DValid (sz page : Nat) := DValidG sz page (fun it ai => it.pagePtr ≠ ai
 /-- `mmap` returns address ranges disjoint from every mapping that is in use -/
 abbrev DValidD (sz page : Nat) := DValidG sz page (apart page)
 
+/-! ## DebugMemory::AllocationManager, compile-time configuration `DEBUG_ALLOCATOR_KEEP`
+
+In this configuration `deallocate` keeps the entry (marked `not_free = false`) and makes the whole mapping inaccessible
+instead of giving it back; only the destructor unmaps.  What the `#if DEBUG_ALLOCATOR_KEEP` branch does is regenerated
+from the source (`dbgKeepFreeUnmaps`, `dbgKeepFreeErases`, `dbgKeepProtects`, `dbgChecksNotFree`). -/
+
+/-- an entry of the allocation list together with its `not_free` flag -/
+structure KInfo where
+  info : AInfo
+  notFree : Bool
+  deriving DecidableEq, Repr
+
+/-- `allocate<T>(n)` (the same code in both configurations): the new entry is appended with `not_free = true` -/
+def kAllocate (sz page n : Nat) (mmap : Nat → Option Nat) (l : List KInfo) : Except Err (AInfo × List KInfo) :=
+  match dbgAllocate sz page n mmap [] with
+  | .ok r => .ok (r.1, l ++ [{ info := r.1, notFree := true }])
+  | .error e => .error e
+
+/-- `deallocate(ptr, n)` with `DEBUG_ALLOCATOR_KEEP`: the first entry whose `page_ptr` equals the lookup key decides —
+    also an entry of a block released earlier; `n == 0 || n == it->size`, `ptr == it->ptr` and `it->not_free` are
+    asserted (`none` = `allocation_error`, abort); the entry stays in the list with `not_free = false` (or is erased, if
+    the source says so).  Result: the entry found and the new list -/
+def kDeallocate (page : Nat) : List KInfo → Nat → Nat → Option (AInfo × List KInfo)
+  | [], _, _ => none
+  | it :: rest, ptr, n =>
+    if it.info.pagePtr = dbgLookupKey ptr page then
+      (if dbgSizeOk n it.info.size ∧ ptr = it.info.ptr ∧ (dbgChecksNotFree = true → it.notFree = true) then
+        some (it.info, if dbgKeepFreeErases then rest else { it with notFree := false } :: rest)
+      else none)
+    else (kDeallocate page rest ptr n).map (fun r => (r.1, it :: r.2))
+
+/-- one step in the KEEP configuration: new list and the mmap/munmap calls made (`mprotect` is not an OS event of the
+    trace); `none` = abort -/
+def kStep (sz page : Nat) (l : List KInfo) : DOp → Option (List KInfo × List OsEv)
+  | .alloc n mm => match kAllocate sz page n (fun _ => mm) l with
+    | .ok r => some (r.2, [.map r.1.pagePtr (dbgMapLen r.1.cap page)])
+    | .error _ => some (l, [])
+  | .free ptr n => match kDeallocate page l ptr n with
+    | some r => some (r.2, if dbgKeepFreeUnmaps then [.unmap r.1.pagePtr (dbgUnmapLen r.1.pages page)] else [])
+    | none => none
+
+def kRun (sz page : Nat) : List KInfo → List DOp → Option (List KInfo × List OsEv)
+  | l, [] => some (l, [])
+  | l, o :: os => match kStep sz page l o with
+    | none => none
+    | some st => match kRun sz page st.1 os with
+      | none => none
+      | some st' => some (st'.1, st.2 ++ st'.2)
+
+/-- `~AllocationManager()` in the KEEP configuration: every entry, released or not, is unmapped; `false` = some block
+    was still in use (`allocation_error("lost allocations")`) -/
+def kDestroy (page : Nat) (l : List KInfo) : List OsEv × Bool :=
+  (l.map fun it => .unmap it.info.pagePtr (dbgDtorUnmapLen it.info.pages page), l.all fun it => !it.notFree)
+
+/-- valid history in the KEEP configuration relative to what is assumed of `mmap`: `R` relates **every recorded entry,
+    released or not** (all of them are still mapped) to a new mapping; only pointers of blocks in use are given back -/
+def KValidG (sz page : Nat) (R : AInfo → AInfo → Prop) : List KInfo → List DOp → Prop
+  | _, [] => True
+  | l, .alloc n mm :: os =>
+    (∀ ai l', kAllocate sz page n (fun _ => mm) l = .ok (ai, l') → page ∣ ai.pagePtr ∧ ∀ it ∈ l, R it.info ai) ∧
+    ∀ st, kStep sz page l (.alloc n mm) = some st → KValidG sz page R st.1 os
+  | l, .free ptr n :: os =>
+    (∃ it ∈ l, it.notFree = true ∧ it.info.ptr = ptr ∧ (n = 0 ∨ n = it.info.size)) ∧
+    ∀ st, kStep sz page l (.free ptr n) = some st → KValidG sz page R st.1 os
+
+abbrev KValid (sz page : Nat) := KValidG sz page (fun it ai => it.pagePtr ≠ ai.pagePtr)
+abbrev KValidD (sz page : Nat) := KValidG sz page (apart page)
+
 /-! ## debugalign.hh -/
 
 /-- `isAligned(p, align)` (via `std::align`): p is a multiple of align -/
@@ -593,14 +661,25 @@ def rawOps (alloc : Nat → Bool) : List Nat → List String → Option (List St
         else (rawOps alloc live os).map ("-" :: ·)
     | _ => none
 
+/-- `h<n>` (allocate with a hint) and `c<n>` (allocate through a copy of the allocator) are `a<n>`; `g<k>` / `G<k>`
+    (deallocate through a copy / through an allocator converted from another element type) are `f<k>`: the allocators
+    of one family are stateless and interchangeable -/
+def normRaw (ops : List String) : List String :=
+  ops.map fun o => match o.toList with
+    | 'h' :: ds => String.ofList ('a' :: ds)
+    | 'c' :: ds => String.ofList ('a' :: ds)
+    | 'g' :: ds => String.ofList ('f' :: ds)
+    | 'G' :: ds => String.ofList ('f' :: ds)
+    | _ => o
+
 def mallocLine (sz al : Nat) (ops : String) : String :=
-  match rawOps (fun n => match mallocAllocate sz al n osServes with | .ok _ => true | .error _ => false) [] (splitOps ops) with
+  match rawOps (fun n => match mallocAllocate sz al n osServes with | .ok _ => true | .error _ => false) [] (normRaw (splitOps ops)) with
   | none => "bad-op"
   | some outs => "max=" ++ toString (mallocMaxSize sz) ++ " : " ++ ";".intercalate outs
 
 def alignedLine (sz al A : Nat) (ops : String) : String :=
   match rawOps (fun n => match alignedAllocate sz al A n osServes with | .ok _ => true | .error _ => false) []
-      (splitOps ops) with
+      (normRaw (splitOps ops)) with
   | none => "bad-op"
   | some outs => "max=" ++ toString (mallocMaxSize sz) ++ " align=" ++ toString (alignedAlignment al A) ++ " : " ++
       ";".intercalate outs
@@ -637,10 +716,76 @@ def dbgOps (sz page : Nat) : Nat → List AInfo → List String → Option (List
 
 def debugLine (sz page : Nat) (ops : String) : String :=
   if page = 0 then "bad-op" else
-  match dbgOps sz page (16 * page) [] (splitOps ops) with
+  match dbgOps sz page (16 * page) [] (normRaw (splitOps ops)) with
   | none => "bad-op"
   | some (outs, evs) => "dbg : " ++ ";".intercalate outs ++ " : mapped=" ++ toString (maps evs).length ++
       " unmapped=" ++ toString (unmaps evs).length
+
+/-- histories of a manager owned by the case, KEEP configuration: as `dbgOps`, on the list with `not_free` flags;
+    `live` = the entries in use, in allocation order (what `f<k>` / `z<k>` index) -/
+def kOps (sz page : Nat) : Nat → List KInfo → List AInfo → List String → Option (List String × List OsEv × List KInfo × List AInfo)
+  | _, l, live, [] => some ([], [], l, live)
+  | brk, l, live, o :: os =>
+    let dealloc (k n? : Nat) : Option (List String × List OsEv × List KInfo × List AInfo) :=
+      match live[k]? with
+      | none => (kOps sz page brk l live os).map fun r => ("-" :: r.1, r.2)
+      | some it => match kStep sz page l (.free it.ptr (if n? = 0 then 0 else it.size)) with
+        | some st => (kOps sz page brk st.1 (live.eraseIdx k) os).map fun r => ("ok" :: r.1, st.2 ++ r.2.1, r.2.2)
+        | none => (kOps sz page brk l live os).map fun r => ("ABORT" :: r.1, r.2)
+    match o.toList with
+    | 'a' :: ds => match (String.ofList ds).toNat? with
+      | none => none
+      | some n =>
+        if n ≥ 2 ^ 64 then none else
+        let mm := if osServes (dbgMapLen (dbgCapacity sz n) page) then some brk else none
+        match kAllocate sz page n (fun _ => mm) l, kStep sz page l (.alloc n mm) with
+        | .ok (ai, _), some st =>
+          (kOps sz page (brk + ai.pages * page + page) st.1 (live ++ [ai]) os).map fun r => ("ok" :: r.1, st.2 ++ r.2.1, r.2.2)
+        | _, _ => (kOps sz page brk l live os).map fun r => ("ERR:Alloc" :: r.1, r.2)
+    | 'f' :: ds => match (String.ofList ds).toNat? with
+      | none => none
+      | some k => dealloc k 1
+    | 'z' :: ds => match (String.ofList ds).toNat? with
+      | none => none
+      | some k => dealloc k 0
+    | _ => none
+
+/-- giving back what is still in use (newest first, as the harness does at the end of a case) -/
+def kDrain (sz page : Nat) : Nat → List KInfo → List AInfo → Option (List KInfo × List OsEv)
+  | 0, l, _ => some (l, [])
+  | fuel + 1, l, live => match live.getLast? with
+    | none => some (l, [])
+    | some it => match kStep sz page l (.free it.ptr it.size) with
+      | none => none
+      | some st => (kDrain sz page fuel st.1 live.dropLast).map fun r => (r.1, st.2 ++ r.2)
+
+/-- `dbgmgr <sz> <al> <page> <keep>`: a manager owned by the case; after the history the blocks still in use are given
+    back and the manager is destroyed; `end_unmapped` counts the `munmap` calls after the history -/
+def mgrLine (sz page keep : Nat) (ops : String) : String :=
+  if page = 0 then "bad-op" else
+  if keep = 0 then
+    match dbgOps sz page (16 * page) [] (normRaw (splitOps ops)) with
+    | none => "bad-op"
+    | some (outs, evs) =>
+      -- every block still in use is unmapped by its deallocate; the destructor finds an empty list
+      "mgr keep=0 : " ++ ";".intercalate outs ++ " : mapped=" ++ toString (maps evs).length ++
+        " unmapped=" ++ toString (unmaps evs).length ++ " end_unmapped=" ++ toString ((maps evs).length - (unmaps evs).length)
+  else
+    match kOps sz page (16 * page) [] [] (normRaw (splitOps ops)) with
+    | none => "bad-op"
+    | some (outs, evs, l, live) =>
+      match kDrain sz page (live.length + 1) l live with
+      | none => "mgr keep=1 : " ++ ";".intercalate outs ++ " : ABORT"
+      | some (l', evs') =>
+        "mgr keep=1 : " ++ ";".intercalate outs ++ " : mapped=" ++ toString (maps evs).length ++
+          " unmapped=" ++ toString (unmaps evs).length ++ " end_unmapped=" ++
+          toString ((unmaps evs').length + (unmaps (kDestroy page l').1).length)
+
+/-- the pool compiled with `NDEBUG` (`Pool::free` without the range test; `free(nullptr)` is still refused): the same
+    state machine on the part of the op language that is defined there -/
+def poolNdebugLine (sz al s : Nat) (isPA : Bool) (ops : String) : String :=
+  if (splitOps ops).any (fun o => o = "fx" ∨ o = "fe" ∨ o = "fb") then "unsupported:op-ndebug"
+  else poolLine sz al s isPA ops
 
 /-- `align <A> : i<off>;p<off>;q<off>`: isAligned(buf+off, A) with a buffer aligned to 4096; `p` = placement new of an
     `AlignedNumber<double,A>`, `q` = array placement new of two of them (the violation handler is called iff not aligned) -/
@@ -685,6 +830,15 @@ def handle (line : String) : String :=
     | ["debug", sz, _al, page] => match sz.toNat?, page.toNat? with
       | some sz, some page => if sz = 0 then "bad-op" else debugLine sz page ops
       | _, _ => "bad-op"
+    | ["dbgmgr", sz, _al, page, keep] => match sz.toNat?, page.toNat?, keep.toNat? with
+      | some sz, some page, some keep => if sz = 0 ∨ keep > 1 then "bad-op" else mgrLine sz page keep ops
+      | _, _, _ => "bad-op"
+    | ["poolnd", sz, al, s] => match sz.toNat?, al.toNat?, s.toNat? with
+      | some sz, some al, some s => if sz = 0 ∨ al = 0 then "bad-op" else poolNdebugLine sz al s false ops
+      | _, _, _ => "bad-op"
+    | ["pand", sz, al, s] => match sz.toNat?, al.toNat?, s.toNat? with
+      | some sz, some al, some s => if sz = 0 ∨ al = 0 then "bad-op" else poolNdebugLine sz al s true ops
+      | _, _, _ => "bad-op"
     | ["align", A] => match A.toNat? with
       | some A => alignLine A ops
       | _ => "bad-op"
